@@ -12,7 +12,19 @@ Two kinds of cases:
                        digest_ok 'absent' = the name has no ParametersSha256DigestComponent at all; dpos 'mid' = the
                        digest component is not the last one; lp = the Interest arrives inside an LpPacket; dup = a
                        second registration on the prefix was attempted (and refused) before; reattach = the prefix was
-                       first registered with another validator, removed, and registered again
+                       first registered with another validator, removed, and registered again.
+                       hardening 2 (helpers of the gate): pkt 'dvar' = the digest component is a near miss of the right
+                       digest ('first' / 'last' octet differs, 'empty', 'prefix:K' = only its first K octets, 'suffix:K',
+                       'ext:K' = the right digest followed by K more octets, 'pad:K' = first K octets then zeros up to 32);
+                       pkt 'svar' = the same near misses of the DigestSha256 SignatureValue (parameters digest right),
+                       which matter to the legacy default validator; route 'appv' = the application-wide legacy
+                       int_validator was replaced by a script; route validator {'union': [script, ...]} = the route's
+                       validator is security.union_checker over scripted members (legacy signature)
+  {'kind': 'd', 'svar': None | near miss, 'appv': None | {'verdict': ..}, 'raw': bool, 'lp': bool}
+                       legacy front-end, Data side of the same helpers: an Interest expressed WITHOUT validator is
+                       answered by a Data whose DigestSha256 SignatureValue is right / a near miss; the validator in
+                       force is the application-wide data_validator (the library's sha256_digest_checker, or a script
+                       when 'appv' is given). Oracle only.
 """
 import asyncio
 import hashlib
@@ -62,7 +74,14 @@ RULE = ('(a) the event histories of C03 (incl. its hardening dimensions: paramet
         '/ signature presence x digest correct or corrupted x signature valid or corrupted x route none / without '
         'callback / with or without validator x every scripted answer x latency, both front-ends; digest component '
         'absent / in the middle of the name, Interest inside an LpPacket with PIT token, registration refused (dup) or '
-        'removed and made again (reattach) with an intruder validator of the opposite verdict. non-trivial = a '
+        'removed and made again (reattach) with an intruder validator of the opposite verdict; (c) helpers of the gate: the '
+        'digest component a near miss of the right digest (first / last octet differs, empty, its first 1..31 octets, its '
+        'last octets, the right digest followed by more octets, zero-padded prefix; at the end / mid-name / in an LpPacket) '
+        'on every route, both front-ends, signed and unsigned parameters; the same near misses of the DigestSha256 '
+        'SignatureValue of Interests (legacy default int_validator) and of Data answering an Interest expressed without '
+        'validator (legacy default data_validator, also with need_raw_packet / in an LpPacket); the application-wide legacy '
+        'validators replaced by scripts (in force exactly where no validator was supplied); the route validator a '
+        'union_checker over 0..3 scripted members (in force: all of them, each consulted before the handler). non-trivial = a '
         'history in which some validator ran, or a gate case with parameters or signature; distinct = distinct cases')
 
 V2_ALL = ['PASS', 'ALLOW_BYPASS', 'FAIL', 'TIMEOUT', 'SILENCE', 'RAISE_TIMEOUT', 'RAISE_OTHER'] + list(c03.B_VALUES)
@@ -72,7 +91,25 @@ F15_KEY = 'v1-validator-outlives-lifetime-and-still-decides'
 
 
 # ------------------------------------------------------------------------------------- cases
-def gate_cases(fe):
+DVARS = ['first', 'last', 'empty'] + ['prefix:%d' % k for k in range(1, 32)] + ['suffix:31', 'suffix:1'] \
+    + ['ext:%d' % k for k in (1, 2, 32)] + ['pad:1', 'pad:16', 'pad:31']
+DVARS_QUICK = ['first', 'last', 'empty', 'prefix:1', 'prefix:16', 'prefix:31', 'suffix:31', 'ext:1', 'ext:32', 'pad:31']
+SVARS = ['first', 'last', 'empty'] + ['prefix:%d' % k for k in (1, 2, 8, 16, 24, 30, 31)] + ['suffix:31', 'ext:1', 'ext:32',
+                                                                                               'pad:31']
+SVARS_QUICK = ['first', 'last', 'empty', 'prefix:1', 'prefix:31', 'ext:1', 'pad:31']
+
+
+def data_cases(thorough):
+    for sv in [None] + (SVARS if thorough else SVARS_QUICK):
+        for raw in (False, True):
+            for lp in (False, True):
+                yield {'kind': 'd', 'svar': sv, 'appv': None, 'raw': raw, 'lp': lp}
+    for v in V1_ALL:
+        for sv in (None, 'last', 'prefix:31'):
+            yield {'kind': 'd', 'svar': sv, 'appv': {'verdict': v}, 'raw': False, 'lp': False}
+
+
+def gate_cases(fe, thorough=False):
     verdicts = V2_ALL if fe == 'v2' else V1_ALL
     pkts = [{'params': False, 'sig': False, 'digest_ok': True, 'sig_valid': True}]
     # 'empty' = ApplicationParameters present with zero length (24 00): still a parameterised Interest
@@ -93,6 +130,54 @@ def gate_cases(fe):
     for v in verdicts:
         routes.append({'validator': {'verdict': v, 'lat': 0}})
         routes.append({'validator': {'verdict': v, 'lat': 30}})
+    # hardening 2: near misses of the right digest (shared helper params_sha256_checker) - every route, no dup / reattach
+    for params, sig in ((True, False), ('empty', False), (True, True), (False, True)):
+        for dv in (DVARS if thorough else DVARS_QUICK):
+            for lp in ((False, True) if dv in ('prefix:1', 'prefix:31', 'ext:1') else (False,)):
+                p = {'params': params, 'sig': sig, 'digest_ok': False, 'sig_valid': bool(sig and params), 'dvar': dv}
+                if lp:
+                    p['lp'] = True
+                for r in routes:
+                    yield {'kind': 'g', 'fe': fe, 'pkt': p, 'route': r}
+                if dv in ('prefix:31', 'ext:1', 'last') and params is True:
+                    # ... with the digest component in the middle of the name
+                    for r in routes:
+                        yield {'kind': 'g', 'fe': fe, 'pkt': dict(p, dpos='mid'), 'route': r}
+    # near misses of the DigestSha256 signature value (shared helper sha256_digest_checker = the legacy default
+    # validator); the parameters digest is right, so the Interest gets as far as the validator in force
+    acc = {'validator': {'verdict': 'PASS', 'lat': 0}}
+    for params in (True, 'empty'):
+        for sv in (SVARS if thorough else SVARS_QUICK):
+            p = {'params': params, 'sig': True, 'digest_ok': True, 'sig_valid': False, 'svar': sv}
+            for r in ({'validator': None}, acc, {'validator': {'verdict': 'FAIL', 'lat': 0}}):
+                yield {'kind': 'g', 'fe': fe, 'pkt': p, 'route': r}
+            yield {'kind': 'g', 'fe': fe, 'pkt': dict(p, lp=True), 'route': {'validator': None}}
+    if fe == 'v1':
+        signed = [{'params': True, 'sig': True, 'digest_ok': True, 'sig_valid': sv} for sv in (True, False)]
+        others = [{'params': True, 'sig': False, 'digest_ok': True, 'sig_valid': True},
+                  {'params': True, 'sig': True, 'digest_ok': False, 'sig_valid': True},
+                  {'params': False, 'sig': False, 'digest_ok': True, 'sig_valid': True}]
+        # the application replaced the application-wide default validator: that script is the validator in force of a
+        # route without validator, and of no other route
+        for v in V1_ALL:
+            for p in signed + others:
+                yield {'kind': 'g', 'fe': fe, 'pkt': p, 'route': {'validator': None, 'appv': {'verdict': v, 'lat': 0}}}
+            yield {'kind': 'g', 'fe': fe, 'pkt': signed[0],
+                   'route': {'validator': None, 'appv': {'verdict': v, 'lat': 30}}}
+            for w in ('PASS', 'FAIL'):
+                yield {'kind': 'g', 'fe': fe, 'pkt': signed[0],
+                       'route': {'validator': {'verdict': w, 'lat': 0}, 'appv': {'verdict': v, 'lat': 0}}}
+        # the route's validator is union_checker over scripted members: in force is the conjunction
+        ms = ['PASS', 'FAIL', 'ONE', 'NONE'] if not thorough else V1_ALL
+        unions = [[]] + [[a] for a in ms] + [[a, b] for a in ms for b in ms] \
+            + [[a, b, c] for a in ('PASS', 'FAIL') for b in ('PASS', 'FAIL') for c in ('PASS', 'FAIL')]
+        if thorough:
+            unions += [['RAISE_OTHER', 'PASS'], ['PASS', 'RAISE_OTHER'], ['PASS', 'RAISE_TIMEOUT', 'PASS']]
+        for u in unions:
+            for lat in (0, 7):
+                r = {'validator': {'union': [{'verdict': v, 'lat': lat} for v in u]}}
+                for p in signed[:1] + others:
+                    yield {'kind': 'g', 'fe': fe, 'pkt': p, 'route': r}
     for p in pkts:
         for r in routes:
             yield {'kind': 'g', 'fe': fe, 'pkt': p, 'route': r}
@@ -108,8 +193,10 @@ def gate_cases(fe):
 
 def cases(rng, tier):
     for fe in ('v2', 'v1'):
-        for c in gate_cases(fe):
+        for c in gate_cases(fe, tier != 'quick'):
             yield c
+    for c in data_cases(tier != 'quick'):
+        yield c
     n = 900 if tier == 'quick' else 15000
     m = 400 if tier == 'quick' else 6000
     for k in range(n + m):
@@ -137,9 +224,16 @@ def shrink(case):
             c['kind'] = 'h'
             yield c
         return
+    if case['kind'] == 'd':
+        for k in ('raw', 'lp'):
+            if case[k]:
+                yield dict(case, **{k: False})
+        return
     r = case['route']
-    if isinstance(r, dict) and r['validator'] and r['validator']['lat']:
-        yield dict(case, route={'validator': dict(r['validator'], lat=0)})
+    if case['pkt'].get('lp'):
+        yield dict(case, pkt={k: v for k, v in case['pkt'].items() if k != 'lp'})
+    if isinstance(r, dict) and r['validator'] and r['validator'].get('lat'):
+        yield dict(case, route=dict(r, validator=dict(r['validator'], lat=0)))
 
 
 # -------------------------------------------------------------------------------- implementation
@@ -168,8 +262,110 @@ def _strip_digest(enc, wire):
     return bytes([0x05, wire[1] - 34, 0x07, ln - 34]) + name[:-34] + wire[4 + ln:]
 
 
+def _tlnum(n):
+    if n < 253:
+        return bytes([n])
+    if n < 0x10000:
+        return b'\xfd' + n.to_bytes(2, 'big')
+    return b'\xfe' + n.to_bytes(4, 'big')
+
+
+def _tlv(t, v):
+    return _tlnum(t) + _tlnum(len(v)) + bytes(v)
+
+
+def _items(buf):
+    """the (type, value) list of a well-formed TLV sequence written by the library (the harness's own reader)"""
+    def num(i):
+        b = buf[i]
+        if b < 253:
+            return b, i + 1
+        n = {253: 2, 254: 4, 255: 8}[b]
+        return int.from_bytes(buf[i + 1:i + 1 + n], 'big'), i + 1 + n
+    out, i = [], 0
+    while i < len(buf):
+        t, i = num(i)
+        ln, i = num(i)
+        out.append((t, bytes(buf[i:i + ln])))
+        i += ln
+    assert i == len(buf)
+    return out
+
+
+def _near_miss(right, var):
+    """a value that is NOT `right` but close to it"""
+    kind, _, k = var.partition(':')
+    k = int(k) if k else 0
+    if kind == 'first':
+        out = bytes([right[0] ^ 0x01]) + right[1:]
+    elif kind == 'last':
+        out = right[:-1] + bytes([right[-1] ^ 0x01])
+    elif kind == 'empty':
+        out = b''
+    elif kind == 'prefix':
+        out = right[:k]
+    elif kind == 'suffix':
+        out = right[-k:]
+    elif kind == 'ext':
+        out = right + (right * 2)[:k]
+    elif kind == 'pad':
+        out = right[:k] + bytes(len(right) - k)
+    else:
+        raise ValueError(var)
+    assert out != right
+    return out
+
+
+def _rewrite(wire, outer, edit):
+    """re-encode a packet after editing the (type, value) list of its top-level elements"""
+    (t, body), = _items(wire)
+    assert t == outer
+    return _tlv(t, b''.join(_tlv(a, b) for a, b in edit(_items(body))))
+
+
+def _set_digest(wire, var):
+    """replace the value of the ParametersSha256DigestComponent (wherever it stands in the name) by a near miss"""
+    def edit(items):
+        assert items[0][0] == 0x07
+        comps = _items(items[0][1])
+        assert sum(1 for t, _ in comps if t == 0x02) == 1
+        comps = [(t, _near_miss(v, var) if t == 0x02 else v) for t, v in comps]
+        return [(0x07, b''.join(_tlv(t, v) for t, v in comps))] + items[1:]
+    return _rewrite(wire, 0x05, edit)
+
+
+def _set_sigvalue(wire, outer, typ, var):
+    def edit(items):
+        assert items[-1][0] == typ
+        return items[:-1] + [(typ, _near_miss(items[-1][1], var))]
+    return _rewrite(wire, outer, edit)
+
+
+def _fix_digest_any(enc, wire):
+    """_fix_digest for an Interest whose parameters block changed its length"""
+    _, _, _, sig = enc.parse_interest(wire)
+    h = hashlib.sha256()
+    for blk in sig.digest_covered_part:
+        h.update(blk)
+    old = bytes(sig.digest_value_buf)
+    assert len(old) == 32 and wire.count(old) == 1
+    return wire.replace(old, h.digest())
+
+
 def build_interest(pkt):
     w = _build_interest(pkt)
+    enc = c03._lib()[0]
+    if pkt.get('svar'):
+        w = _fix_digest_any(enc, _set_sigvalue(w, 0x05, 0x2e, pkt['svar']))
+        _, _, _, sig = enc.parse_interest(w)
+        h = hashlib.sha256()
+        for blk in sig.digest_covered_part:
+            h.update(blk)
+        assert h.digest() == bytes(sig.digest_value_buf)
+    if pkt.get('dvar'):
+        w = _set_digest(w, pkt['dvar'])
+        got = enc.parse_interest(w)[3].digest_value_buf
+        assert got is not None and len(got) == len(_near_miss(bytes(range(32)), pkt['dvar']))
     if pkt.get('lp'):
         enc, _, ndnlp, _ = c03._lib()
         w = c03.lp_wrap(ndnlp, w)
@@ -206,7 +402,7 @@ def _build_interest(pkt):
     if pkt['digest_ok'] == 'absent':
         w = _strip_digest(enc, w)
         assert enc.parse_interest(w)[3].digest_value_buf is None
-    elif not pkt['digest_ok']:
+    elif not pkt['digest_ok'] and not pkt.get('dvar'):
         _, _, _, sig = enc.parse_interest(w)
         w = _flip(w, bytes(sig.digest_value_buf))
     return w
@@ -246,7 +442,25 @@ def run_gate(case):
                 if spec['verdict'] == 'RAISE_OTHER':
                     raise c03.ScriptedError()
             validator = None
-            if spec is not None:
+            ulog = []
+            if spec is not None and 'union' in spec:
+                def member(i, m):
+                    async def check(name, sig):
+                        ulog.append(i)
+                        if m['lat']:
+                            await asyncio.sleep(m['lat'] / 1000.0)
+                        if m['verdict'] == 'RAISE_TIMEOUT':
+                            raise TimeoutError()
+                        if m['verdict'] == 'RAISE_OTHER':
+                            raise c03.ScriptedError()
+                        return c03.V1_TRUTH[m['verdict']]
+                    return check
+                union = sec_mod.union_checker(*[member(i, m) for i, m in enumerate(spec['union'])])
+
+                async def validator(name, sig):
+                    log.append(['v', now()])
+                    return await union(name, sig)
+            elif spec is not None:
                 if fe == 'v2':
                     async def validator(name, sig, ctx):
                         await script()
@@ -294,6 +508,18 @@ def run_gate(case):
                     log.append(['v', now()])
                     return await dflt(name, sig)
                 rig.app.int_validator = logging_default
+                appv = route.get('appv') if isinstance(route, dict) else None
+                if appv:
+                    async def app_wide(name, sig):
+                        log.append(['v', now()])
+                        if appv['lat']:
+                            await asyncio.sleep(appv['lat'] / 1000.0)
+                        if appv['verdict'] == 'RAISE_TIMEOUT':
+                            raise TimeoutError()
+                        if appv['verdict'] == 'RAISE_OTHER':
+                            raise c03.ScriptedError()
+                        return c03.V1_TRUTH[appv['verdict']]
+                    rig.app.int_validator = app_wide
                 if route == 'nocb':
                     rig.app._prefix_tree[enc.Name.normalize('/g')] = name_tree.PrefixTreeNode()
                 elif route != 'none':
@@ -324,7 +550,61 @@ def run_gate(case):
                 errs.append([type(rx.exception()).__name__, 'reception task'])
         finally:
             sec_mod.params_sha256_checker, app_mod.params_sha256_checker = saved
-    return {'log': log, 'acts': ''.join(k for k, _ in log), 'loop_errors': errs}
+    return {'log': log, 'acts': ''.join(k for k, _ in log), 'loop_errors': errs, 'ulog': ulog}
+
+
+def run_data(case):
+    """legacy front-end: express without validator, answer with a Data whose DigestSha256 value is right / a near miss"""
+    enc, types, ndnlp, Signer = c03._lib()
+    wire = bytes(enc.make_data('/d/x', enc.MetaInfo(freshness_period=1000), b'payload', signer=Signer()))
+    if case['svar']:
+        wire = _set_sigvalue(wire, 0x06, 0x17, case['svar'])
+    enc.parse_data(wire)
+    if case['lp']:
+        wire = c03.lp_wrap(ndnlp, wire)
+    vlog = []
+    with AppRig('v1', t0=c03.T0) as rig:
+        loop = rig.loop
+        appv = case['appv']
+        if appv:
+            async def app_wide(name, sig):
+                vlog.append(enc.Name.to_str(name))
+                if appv['verdict'] == 'RAISE_TIMEOUT':
+                    raise TimeoutError()
+                if appv['verdict'] == 'RAISE_OTHER':
+                    raise c03.ScriptedError()
+                return c03.V1_TRUTH[appv['verdict']]
+            rig.app.data_validator = app_wide
+
+        async def ask():
+            return await rig.app.express_interest('/d/x', lifetime=1000, nonce=5, need_raw_packet=case['raw'])
+        loop.advance(c03.T0 + 0.010)
+        t = loop.create_task(ask())
+        loop.settle()
+        rx = loop.create_task(rig.face.callback(rig._typ(wire), wire))
+        loop.settle()
+        loop.advance(c03.T0 + 2.0)
+        errs = [list(e) for e in loop.errors]
+        if not rx.done():
+            errs.append(['NeverFinished', 'reception task'])
+        elif not rx.cancelled() and rx.exception() is not None:
+            errs.append([type(rx.exception()).__name__, 'reception task'])
+        if not t.done():
+            res = ['pending']
+            t.cancel()
+            loop.settle()
+        elif t.cancelled():
+            res = ['cancelled']
+        elif t.exception() is not None:
+            e = t.exception()
+            res = ['exc', type(e).__name__]
+            if isinstance(e, types.ValidationFailure):
+                res.append(bytes(e.content) == b'payload' and enc.Name.to_str(e.name) == '/d/x')
+        else:
+            r = t.result()
+            res = ['data', bytes(r[2]) if r[2] is not None else None]
+            res[1] = res[1] == b'payload'
+    return {'res': res, 'vcalls_d': len(vlog), 'loop_errors': errs}
 
 
 def rig_name_variant(enc):
@@ -339,6 +619,8 @@ class Run5(c03.Run):
 def run_impl(case):
     if case['kind'] == 'h':
         return Run5(case).run()
+    if case['kind'] == 'd':
+        return run_data(case)
     return run_gate(case)
 
 
@@ -349,14 +631,28 @@ def model_line(case, impl):
             return None
         toks = c03.model_events(case)
         return f"C05 h {case['fe']} {';'.join(toks) if toks else '.'}"
+    if case['kind'] == 'd':
+        return None
     p, r = case['pkt'], case['route']
     bits = ''.join('1' if x else '0' for x in (p['params'], p['sig'], p['digest_ok'] is True))
     if isinstance(r, dict):
-        rt = 'h:~' if r['validator'] is None else 'h:' + c03.model_verdict(case['fe'], r['validator']['verdict'])
+        spec = r['validator']
+        if spec is not None and 'union' in spec:
+            # union_checker as the library defines it: members in order, the first that refuses (or raises) decides
+            v = 'PASS'
+            for m in spec['union']:
+                if m['verdict'].startswith('RAISE_') or not c03.V1_TRUTH[m['verdict']]:
+                    v = m['verdict']
+                    break
+            rt = 'h:' + c03.model_verdict(case['fe'], v)
+        else:
+            rt = 'h:~' if spec is None else 'h:' + c03.model_verdict(case['fe'], spec['verdict'])
     else:
         rt = r
     # the legacy default int_validator (sha256_digest_checker) accepts exactly the valid DigestSha256 signature
     dflt = 'PASS' if p['sig_valid'] else 'FAIL'
+    if isinstance(r, dict) and r.get('appv'):
+        dflt = c03.model_verdict(case['fe'], r['appv']['verdict'])
     return f"C05 g {case['fe']} {dflt} {bits} {rt}"
 
 
@@ -369,6 +665,8 @@ def model_obs(answer, case, impl):
 
 
 def impl_obs(impl):
+    if 'res' in impl:
+        return impl['res']
     if 'acts' in impl:
         return impl['acts']
     return c03.impl_obs(impl)
@@ -399,8 +697,10 @@ def oracle_gate(case, impl):
             return 'handler invoked without a route'
         return None
     spec = r['validator']
+    appv = r.get('appv')
+    union = spec['union'] if spec is not None and 'union' in spec else None
     if not needs:
-        if validated:
+        if validated or impl['ulog']:
             return 'a validator was consulted for a plain Interest'
         if not handled:
             return 'a plain Interest was not delivered'
@@ -410,7 +710,18 @@ def oracle_gate(case, impl):
         if handled and spec is None:
             return 'an Interest that requires validation reached the handler of a route without validator'
     elif p['sig']:
-        ok = (bool(c03.V1_TRUTH.get(spec['verdict'], False)) if spec is not None else p['sig_valid'])
+        if union is not None:
+            # in force is the combination: it accepted only if every member did
+            ok = all(bool(c03.V1_TRUTH.get(m['verdict'], False)) for m in union)
+            if handled and sorted(set(impl['ulog'])) != list(range(len(union))):
+                return 'an Interest reached its handler although a member of the combined validator was never consulted'
+        elif spec is not None:
+            ok = bool(c03.V1_TRUTH.get(spec['verdict'], False))
+        elif appv:
+            # the application-wide validator the application installed is in force for a route without validator
+            ok = bool(c03.V1_TRUTH.get(appv['verdict'], False))
+        else:
+            ok = p['sig_valid']
     else:
         return None                     # legacy: unsigned parameterised Interests are outside the statement
     if handled and not ok:
@@ -423,19 +734,58 @@ def oracle_gate(case, impl):
     return None
 
 
+def oracle_data(case, impl):
+    """the Data clause for an Interest expressed without validator (legacy): in force is the application-wide
+    data_validator - the library's DigestSha256 checker, which cannot accept a value that is not the SHA-256 of the
+    signed portion, or the script the application put in its place"""
+    if impl['loop_errors']:
+        return f"internal error escaped a callback: {impl['loop_errors'][0][0]}"
+    appv, res = case['appv'], impl['res']
+    if appv:
+        raising = appv['verdict'].startswith('RAISE_')
+        accepted = (not raising) and bool(c03.V1_TRUTH[appv['verdict']])
+        if impl['vcalls_d'] != 1 and res[0] in ('data', 'exc'):
+            return f"the application-wide data validator was consulted {impl['vcalls_d']} times for one Data"
+    else:
+        raising = False
+        accepted = case['svar'] is None
+    if res[0] == 'data':
+        if not accepted:
+            return 'a Data was returned to the caller although the validator in force did not accept it'
+        if not res[1]:
+            return 'the returned Data is not the one received'
+        return None
+    if res[0] == 'exc' and res[1] == 'ValidationFailure':
+        if accepted:
+            return 'validation failure although the validator in force accepted the Data'
+        if not res[2]:
+            return 'the validation failure does not carry the packet'
+        return None
+    if raising and res[0] == 'exc':
+        return None
+    return f'an answered Interest ended with {res}'
+
+
 def oracle(case, impl):
     if case['kind'] == 'g':
         return oracle_gate(case, impl)
+    if case['kind'] == 'd':
+        return oracle_data(case, impl)
     return c03.oracle_common(case, impl, strict=True)
 
 
 def nontrivial(case, impl):
+    if case['kind'] == 'd':
+        return True
     if case['kind'] == 'g':
         return case['pkt']['params'] or case['pkt']['sig']
     return len(impl['vcalls']) > 0
 
 
 def tags(case, impl):
+    if case['kind'] == 'd':
+        return ['data-default', 'sigvalue:' + (case['svar'] or 'right').split(':')[0],
+                'appv:' + (case['appv']['verdict'] if case['appv'] else '-'), 'res:' + str(impl['res'][:2])]
     if case['kind'] == 'g':
         p, r = case['pkt'], case['route']
         t = ['gate', 'fe:' + case['fe'], 'pkt:' + ('P' if p['params'] else '-') + ('S' if p['sig'] else '-')
@@ -444,7 +794,15 @@ def tags(case, impl):
         for k in ('dup', 'reattach'):
             if case.get(k):
                 t.append(k)
-        if isinstance(r, dict):
+        if p.get('dvar'):
+            t.append('digest:' + p['dvar'].split(':')[0])
+        if p.get('svar'):
+            t.append('sigvalue:' + p['svar'].split(':')[0])
+        if isinstance(r, dict) and r.get('appv'):
+            t.append('app-wide:' + r['appv']['verdict'])
+        if isinstance(r, dict) and r['validator'] and 'union' in r['validator']:
+            t.append('route:union-of-%d' % len(r['validator']['union']))
+        elif isinstance(r, dict):
             t.append('route:' + ('no-validator' if r['validator'] is None else r['validator']['verdict']))
         else:
             t.append('route:' + r)
@@ -458,6 +816,8 @@ def tags(case, impl):
 
 def finding_key(case, impl, why):
     import re
+    if case['kind'] == 'd':
+        return 'data-default-' + re.sub(r'[^a-zA-Z]+', '-', why).strip('-').lower()[:70]
     if case['kind'] == 'g':
         w = re.sub(r'[^a-zA-Z]+', '-', why).strip('-').lower()
         return f"gate-{case['fe']}-{w[:70]}"
